@@ -49,6 +49,9 @@ type fsCrash struct{ at int }
 
 var FS *fsModelT
 
+// gzReadChunk > 0: a gzip Reader delivers at most this many bytes per Read call (harness-controlled, reset per path)
+var gzReadChunk int
+
 func resetFS() {
 	fsSchedLevel = 0
 	FS = &fsModelT{files: map[string]*fsNode{}, dirs: map[string]bool{}, failAt: -1, crashAt: -1, pid: 4242}
@@ -448,10 +451,14 @@ func init() {
 				}
 				return tuple{0, ioErr(fr, "ErrUnexpectedEOF")}
 			}
+			if gzReadChunk > 0 && len(buf) > gzReadChunk {
+				buf = buf[:gzReadChunk] // a legal io.Reader: the real one hands out at most one decompression window per call
+			}
 			n := copy(buf, g.data[g.pos:])
 			g.pos += n
 			return tuple{n, iface{}}
 		},
+		cometPath + ".vGzipReadChunk": func(fr *frame, a []value) value { gzReadChunk = asInt(a[0]); return nil },
 		"(*compress/gzip.Reader).Close": func(fr *frame, a []value) value { return iface{} },
 
 		// ---- harness control ----
